@@ -102,6 +102,9 @@ type compPlan struct {
 	FailConsume  bool
 	// status reports issued from inside Start (C11)
 	StartReports []componentstatus.Status
+	// watcher extension hooks that fail (C10): NotifyConfig / Ready count as failures of start-up, NotReady as a
+	// failure of shutdown
+	FailNotifyConfig, FailReady, FailNotReady bool
 }
 
 type delivery struct {
@@ -940,10 +943,28 @@ func (e *watcherExtension) ComponentStatusChanged(src *componentstatus.InstanceI
 }
 func (e *watcherExtension) NotifyConfig(context.Context, *confmap.Conf) error {
 	e.w.emit("notify-config", e.key, e.gen, "")
+	if e.w.plan(e.key).FailNotifyConfig {
+		e.w.emit("start-fail", e.key, e.gen, "notify-config")
+		return fmt.Errorf("%s: notify-config: %w", e.key, errStubStart)
+	}
 	return nil
 }
-func (e *watcherExtension) Ready() error    { e.w.emit("ready", e.key, e.gen, ""); return nil }
-func (e *watcherExtension) NotReady() error { e.w.emit("not-ready", e.key, e.gen, ""); return nil }
+func (e *watcherExtension) Ready() error {
+	e.w.emit("ready", e.key, e.gen, "")
+	if e.w.plan(e.key).FailReady {
+		e.w.emit("start-fail", e.key, e.gen, "ready")
+		return fmt.Errorf("%s: ready: %w", e.key, errStubStart)
+	}
+	return nil
+}
+func (e *watcherExtension) NotReady() error {
+	e.w.emit("not-ready", e.key, e.gen, "")
+	if e.w.plan(e.key).FailNotReady {
+		e.w.emit("shutdown-fail", e.key, e.gen, "not-ready")
+		return fmt.Errorf("%s: not-ready: %w", e.key, errStubShutdown)
+	}
+	return nil
+}
 
 var _ extensioncapabilities.ConfigWatcher = (*watcherExtension)(nil)
 var _ extensioncapabilities.PipelineWatcher = (*watcherExtension)(nil)
